@@ -5,6 +5,7 @@ package bodyprocessors
 
 import (
 	"io"
+	"sort"
 	"strconv"
 	"strings"
 
@@ -25,10 +26,17 @@ func (*urlencodedBodyProcessor) ProcessRequest(reader io.Reader, v plugintypes.T
 	b := buf.String()
 	values := urlutil.ParseQuery(b, '&')
 	argsCol := v.ArgsPost()
-	for k, vs := range values {
+	// sorted names: the order of the values stored under one case-insensitive name must not
+	// depend on the map iteration order
+	keys := make([]string, 0, len(values))
+	for k := range values {
+		keys = append(keys, k)
+	}
+	sort.Strings(keys)
+	for _, k := range keys {
 		// Add, not Set: names that differ only in case share one key of the collection,
 		// and Set would silently replace the values stored for the other spelling.
-		for _, v := range vs {
+		for _, v := range values[k] {
 			argsCol.Add(k, v)
 		}
 	}
